@@ -365,7 +365,7 @@ class JokerPrior:
             logp = []
             for par in sub_pars.values():
                 try:
-                    _logp = pm.logp(par, raw_samples[par.name]).eval()
+                    _logp = _logp_at_samples(par, sub_pars, raw_samples)
                 except Exception:
                     logger.warning(
                         f"Cannot auto-compute log-prior value for parameter {par}"
@@ -405,6 +405,28 @@ class JokerPrior:
         # log_prior = Table(log_prior)[par_names]
 
         return prior_samples
+
+
+def _logp_at_samples(par, pars, raw_samples):
+    """
+    Log-density of ``par`` at its drawn values, with every other sampled
+    parameter it depends on (e.g. P and e for the K prior) held at the values
+    drawn for the same sample.
+    """
+    import pytensor.tensor as pt
+    from pytensor.graph.basic import ancestors
+    from pytensor.graph.replace import vectorize_graph
+
+    value = pt.scalar(f"{par.name}_value", dtype=par.dtype)
+    logp = pm.logp(par, value)
+    replace = {value: pt.as_tensor_variable(raw_samples[par.name].astype(par.dtype))}
+    parents = set(ancestors([logp]))
+    for name, other in pars.items():
+        if other is not par and other in parents:
+            replace[other] = pt.as_tensor_variable(
+                raw_samples[name].astype(other.dtype)
+            )
+    return vectorize_graph(logp, replace=replace).eval()
 
 
 @u.quantity_input(P_min=u.day, P_max=u.day)
